@@ -1,0 +1,35 @@
+//go:build verif
+
+// Contracts for package errors, read by /verif/bin/gvc (contract-based deductive verification).
+// This file contains comments only; it is compiled only under the build tag "verif".
+package errors
+
+//@ func NewTaskfileDecodeError
+//@   modifies cells
+//@   nilable err
+//@   ensures result != nil                                          [C16]
+
+//@ func (*TaskfileDecodeError).WithMessage
+//@   modifies err.Message
+//@   ensures result == err                                          [C16]
+
+//@ func (*TaskfileDecodeError).WithTypeMessage
+//@   modifies err.Message
+//@   ensures result == err                                          [C16]
+
+//@ func (*TaskfileDecodeError).WithFileInfo
+//@   modifies err.Location, err.Snippet
+//@   ensures result == err                                          [C16]
+
+//@ func (*TaskfileDecodeError).Error
+//@   sweep                                                          [C16]
+
+//@ func As
+//@   modifies cells
+//@ func Is
+//@   pure
+//@ func Unwrap
+//@   pure
+//@ func New
+//@   pure allocates
+//@   ensures result != nil
